@@ -340,6 +340,53 @@ impl PhoneticSuggestion {
     }
 }
 
+#[cfg(riti_verif)]
+impl PhoneticSuggestion {
+    /// Verification hook: dump the scratch state (candidate list, memo, user auto-correct) as JSON.
+    pub(crate) fn verif_get_state(&self) -> serde_json::Value {
+        let mut cache = serde_json::Map::new();
+        for (k, v) in self.cache.iter() {
+            cache.insert(
+                k.clone(),
+                v.iter().map(|r| r.verif_to_json()).collect::<Vec<_>>().into(),
+            );
+        }
+        serde_json::json!({
+            "suggestions": self.suggestions.iter().map(|r| r.verif_to_json()).collect::<Vec<_>>(),
+            "pbuffer": self.pbuffer,
+            "regex": self.regex,
+            "cache": cache,
+            "user_autocorrect": serde_json::to_value(&self.user_autocorrect).unwrap(),
+        })
+    }
+
+    /// Verification hook: plant the scratch state from JSON (absent keys are left alone).
+    pub(crate) fn verif_set_state(&mut self, v: &serde_json::Value) {
+        if let Some(list) = v["suggestions"].as_array() {
+            self.suggestions = list.iter().map(Rank::verif_from_json).collect();
+        }
+        if let Some(s) = v["pbuffer"].as_str() {
+            self.pbuffer = s.to_string();
+        }
+        if let Some(s) = v["regex"].as_str() {
+            self.regex = s.to_string();
+        }
+        if let Some(map) = v["cache"].as_object() {
+            self.cache.clear();
+            for (k, list) in map {
+                let ranks = list
+                    .as_array()
+                    .map(|l| l.iter().map(Rank::verif_from_json).collect())
+                    .unwrap_or_default();
+                self.cache.insert(k.clone(), ranks);
+            }
+        }
+        if v.get("user_autocorrect").map(|x| x.is_object()).unwrap_or(false) {
+            self.user_autocorrect = serde_json::from_value(v["user_autocorrect"].clone()).unwrap();
+        }
+    }
+}
+
 // Implement Default trait on PhoneticSuggestion, actually for testing convenience.
 impl Default for PhoneticSuggestion {
     fn default() -> Self {
